@@ -1,7 +1,7 @@
 (* C01, simulation: the fragments are nested, and every program of the largest one is well-scoped
    (RefScope.well_scoped: the class property C01 quantifies over). *)
 From Coq Require Import List NArith ZArith Bool Arith Lia.
-From Cao Require Import CheckUtil CardAst Table RefSem RefScope StdlibGen C01SimDefs C01SimRef C01SimDefs2 C01SimDefs3 C01SimDefs4.
+From Cao Require Import CheckUtil CardAst Table RefSem RefScope StdlibGen C01SimDefs C01SimRef C01SimDefs2 C01SimDefs3 C01SimDefs4 C01SimDefs5 C01SimRef5.
 Import ListNotations.
 
 (* ------------------------------------------------------------------ nesting *)
@@ -53,6 +53,30 @@ Proof.
   apply (forallb_impl _ _ _ top_f3_4 H2).
 Qed.
 
+Lemma stmt4_5 Ln c : stmt4 c = true -> stmt5 Ln c = true.
+Proof.
+  induction c using CompilerWf.card_ind'; cbn [stmt4 stmt5]; auto; try discriminate.
+  - destruct op; try discriminate; intros H; apply andb_true_iff in H; destruct H as [H1 H2]; rewrite H1, (IHc2 H2); reflexivity.
+  - destruct op; try discriminate. intros H. apply andb_true_iff in H. destruct H as [H H3].
+    apply andb_true_iff in H. destruct H as [H1 H2]. rewrite H1, (IHc2 H2), (IHc3 H3). reflexivity.
+  - match goal with HF : Forall _ cards |- _ => induction HF as [|x r Hx _ IHr] end; cbn [forallb]; [auto|].
+    intros H. apply andb_true_iff in H. destruct H as [H1 H2]. rewrite (Hx H1), (IHr H2). reflexivity.
+Qed.
+Lemma cards4_5 cards : forallb stmt4 cards = true -> forall Ln, cards5 Ln cards = true.
+Proof.
+  induction cards as [|c r IH]; intros H Ln; [reflexivity|]. cbn [forallb cards5] in *.
+  apply andb_true_iff in H. destruct H as [H1 H2].
+  assert (Ht : top5 Ln c = true) by (destruct c; try discriminate H1; cbn [top5]; apply stmt4_5; exact H1).
+  rewrite Ht. apply IH, H2.
+Qed.
+Lemma in_f4_f5 M : in_f4 M = true -> in_f5 M = true.
+Proof.
+  destruct M as [subs funs imps]. cbn [in_f4 in_f5]. destruct subs; [|discriminate].
+  destruct funs as [|[name f] [|]]; try discriminate. destruct imps; [|discriminate].
+  intros H. apply andb_true_iff in H. destruct H as [H1 H2]. rewrite H1. cbn [andb].
+  apply cards4_5, H2.
+Qed.
+
 (* ------------------------------------------------------------------ the scoping rules *)
 Section Ws.
 Variable P : list fentry.
@@ -82,34 +106,61 @@ Proof.
     apply negb_true_iff in Hdot. rewrite is_empty_conv in Hne. cbn [ws yields]. rewrite (var_base_no_dot _ Hdot), Hne. split; reflexivity.
 Qed.
 
-Lemma stmt_ws c : stmt4 c = true -> forall ret decl loc up, ws P fi ret decl loc up c = Some loc.
+Lemma mem_lmem x Ln : mem x Ln = lmem x Ln.
 Proof.
-  induction c using CompilerWf.card_ind'; intros Hc; cbn [stmt4] in Hc; try discriminate Hc; intros ret decl loc up.
+  unfold mem, lmem. induction Ln as [|y r IH]; cbn [existsb find_first]; [reflexivity|].
+  destruct (str_eqb x y); [reflexivity|]. cbn [orb]. rewrite IH. destruct (find_first x r); reflexivity.
+Qed.
+
+Lemma stmt_ws Ln c : stmt5 Ln c = true -> forall ret decl up, ws P fi ret decl Ln up c = Some Ln.
+Proof.
+  induction c using CompilerWf.card_ind'; intros Hc; cbn [stmt5] in Hc; try discriminate Hc; intros ret decl up.
   - (* IfTrue / IfFalse / While *)
     destruct op; try discriminate Hc; apply andb_true_iff in Hc; destruct Hc as [He Hb];
-      destruct (expr_ws c1 He ret false loc up) as [A1 B1]; cbn [ws];
-      rewrite A1, B1, (IHc2 Hb ret false loc up); reflexivity.
+      destruct (expr_ws c1 He ret false Ln up) as [A1 B1]; cbn [ws];
+      rewrite A1, B1, (IHc2 Hb ret false up); reflexivity.
   - (* IfElse *)
     destruct op; try discriminate Hc. apply andb_true_iff in Hc. destruct Hc as [Hc Hb].
     apply andb_true_iff in Hc. destruct Hc as [He Ha].
-    destruct (expr_ws c1 He ret false loc up) as [A1 B1]. cbn [ws].
-    rewrite A1, B1, (IHc2 Ha ret false loc up), (IHc3 Hb ret false loc up). reflexivity.
+    destruct (expr_ws c1 He ret false Ln up) as [A1 B1]. cbn [ws].
+    rewrite A1, B1, (IHc2 Ha ret false up), (IHc3 Hb ret false up). reflexivity.
   - reflexivity.
   - (* SetGlobalVar *)
     apply andb_true_iff in Hc. destruct Hc as [Hne He].
-    destruct (expr_ws c He ret false loc up) as [A1 B1]. rewrite is_empty_conv in Hne. cbn [ws]. rewrite Hne.
+    destruct (expr_ws c He ret false Ln up) as [A1 B1]. rewrite is_empty_conv in Hne. cbn [ws]. rewrite Hne.
+    destruct c; try discriminate He; rewrite A1, B1; reflexivity.
+  - (* SetVar of a local *)
+    apply andb_true_iff in Hc. destruct Hc as [Hc He]. apply andb_true_iff in Hc. destruct Hc as [Hx Hm].
+    unfold var_ok in Hx. apply andb_true_iff in Hx. destruct Hx as [Hne Hdot].
+    apply negb_true_iff in Hne, Hdot. rewrite is_empty_conv in Hne.
+    destruct (expr_ws c He ret false Ln up) as [A1 B1]. cbn [ws].
+    rewrite (rsplit_no_dot _ Hdot), Hne, mem_lmem, Hm. cbn [orb].
     destruct c; try discriminate He; rewrite A1, B1; reflexivity.
   - (* Composite *)
     cbn [ws]. match goal with HF : Forall _ cards |- _ => rename HF into HFall end.
     revert Hc. induction HFall as [|x r Hx _ IHr]; intros Hc; [reflexivity|].
     cbn [forallb] in Hc. apply andb_true_iff in Hc. destruct Hc as [H1 H2].
-    rewrite (Hx H1 ret decl loc up). apply IHr, H2.
+    rewrite (Hx H1 ret decl up). apply IHr, H2.
 Qed.
 
-Lemma cards_ws cards ret loc : forallb stmt4 cards = true -> ws_seq P fi ret loc cards = true.
+Lemma top_ws Ln c : top5 Ln c = true -> forall ret, ws P fi ret true Ln [] c = Some (names_next Ln c).
 Proof.
-  induction cards as [|c r IH]; cbn [forallb ws_seq]; [reflexivity|]. intros H.
-  apply andb_true_iff in H. destruct H as [H1 H2]. rewrite (stmt_ws c H1 ret true loc []). apply IH, H2.
+  intros Hc ret.
+  assert (Hstmt : stmt5 Ln c = true -> names_next Ln c = Ln -> ws P fi ret true Ln [] c = Some (names_next Ln c)).
+  { intros H5 Hn. rewrite Hn. apply stmt_ws, H5. }
+  destruct c; try (apply Hstmt; [exact Hc | reflexivity]).
+  cbn [top5] in Hc. apply andb_true_iff in Hc. destruct Hc as [Hx He].
+  unfold var_ok in Hx. apply andb_true_iff in Hx. destruct Hx as [Hne Hdot].
+  apply negb_true_iff in Hne, Hdot. rewrite is_empty_conv in Hne.
+  destruct (expr_ws c He ret false Ln []) as [A1 B1]. cbn [ws names_next].
+  rewrite (rsplit_no_dot _ Hdot), Hne, mem_lmem. cbn [mem existsb orb]. rewrite orb_false_r.
+  destruct c; try discriminate He; rewrite A1, B1; cbn [negb]; destruct (lmem name Ln); reflexivity.
+Qed.
+
+Lemma cards_ws cards : forall ret Ln, cards5 Ln cards = true -> ws_seq P fi ret Ln cards = true.
+Proof.
+  induction cards as [|c r IH]; intros ret Ln; cbn [cards5 ws_seq]; [reflexivity|]. intros H.
+  apply andb_true_iff in H. destruct H as [H1 H2]. rewrite (top_ws Ln c H1 ret). apply IH, H2.
 Qed.
 End Ws.
 
@@ -127,9 +178,9 @@ Proof.
   destruct H as [H1 H2]. cbn [length seq combine forallb snd]. rewrite H1, (IH H2 (S k)). reflexivity.
 Qed.
 
-Theorem in_f4_well_scoped M : in_f4 M = true -> well_scoped M = true.
+Theorem in_f5_well_scoped M : in_f5 M = true -> well_scoped M = true.
 Proof.
-  intros HM. destruct M as [subs funs imps]. cbn [in_f4] in HM.
+  intros HM. destruct M as [subs funs imps]. cbn [in_f5] in HM.
   destruct subs; [|discriminate]. destruct funs as [|[name f] [|]]; try discriminate.
   destruct imps; [|discriminate].
   apply andb_true_iff in HM. destruct HM as [HM Hcards]. apply andb_true_iff in HM. destruct HM as [Hname Hargs].
@@ -145,6 +196,8 @@ Proof.
   apply cards_ws, Hcards.
 Qed.
 
+Corollary in_f4_well_scoped M : in_f4 M = true -> well_scoped M = true.
+Proof. intros H. apply in_f5_well_scoped, in_f4_f5, H. Qed.
 Corollary in_f3_well_scoped M : in_f3 M = true -> well_scoped M = true.
 Proof. intros H. apply in_f4_well_scoped, in_f3_f4, H. Qed.
 Corollary in_f1_well_scoped M : in_f1 M = true -> well_scoped M = true.
@@ -156,5 +209,9 @@ Theorem fragments_well_scoped M :
   (in_f1 M = true -> in_f2 M = true) /\
   (in_f2 M = true -> in_f3 M = true) /\
   (in_f3 M = true -> in_f4 M = true) /\
-  (in_f4 M = true -> well_scoped M = true).
-Proof. split; [apply in_f1_f2|]. split; [apply in_f2_f3|]. split; [apply in_f3_f4 | apply in_f4_well_scoped]. Qed.
+  (in_f4 M = true -> in_f5 M = true) /\
+  (in_f5 M = true -> well_scoped M = true).
+Proof.
+  split; [apply in_f1_f2|]. split; [apply in_f2_f3|]. split; [apply in_f3_f4|].
+  split; [apply in_f4_f5 | apply in_f5_well_scoped].
+Qed.
